@@ -28,6 +28,8 @@ type Obligation struct {
 	Output  string
 	Expect  string // "" or "cover" (expect sat/unknown: vacuity check)
 	Trusted []string
+	Probes  []Probe
+	Replay  string
 }
 
 func (o *Obligation) Name() string {
@@ -40,6 +42,12 @@ func (o *Obligation) Name() string {
 
 func shortFuncKey(k string) string {
 	return strings.ReplaceAll(k, repoModule+"/", "")
+}
+
+// Probe is a named term whose value in a counter-model describes the failing input.
+type Probe struct {
+	Name string
+	Term Term
 }
 
 // VC is the verification context of one function (or lemma).
@@ -67,6 +75,7 @@ type VC struct {
 	tparamsEnv map[string]types.Type
 	callOrd map[ssa.Instruction]int
 	epochs  int
+	probes  []Probe
 	curState *State // state receiving heap well-formedness facts discovered while translating clauses
 }
 
